@@ -184,13 +184,15 @@ def cvalStep (root : String) (kvs : List String) (impl : String) : Verdict :=
       if !(annKeys.all fun a => plainAnnKey (Str.toLower a)) then .skip "annotation-key-outside-model" else
       let v : ProxyView := {
         name := asStr (c.get (S "Name")), proxyProtocolVersion := asStr (c.get (S "Transport.ProxyProtocolVersion")),
-        bandwidthLimitMode := asStr (c.get (S "Transport.BandwidthLimitMode")), pluginType := [],
+        bandwidthLimitMode := asStr (c.get (S "Transport.BandwidthLimitMode")),
+        pluginType := asStr (c.get (S "Plugin.Type")), pluginLocalAddr := asStr (c.get (S "Plugin.LocalAddr")),
+        pluginLocalPath := asStr (c.get (S "Plugin.LocalPath")), pluginUnixPath := asStr (c.get (S "Plugin.UnixPath")),
         localPort := asInt (c.get (S "LocalPort")), healthCheckType := asStr (c.get (S "HealthCheck.Type")),
         healthCheckPath := asStr (c.get (S "HealthCheck.Path")), subDomain := asStr (c.get (S "SubDomain")),
         customDomains := strsOf (c.get (S "CustomDomains")), multiplexer := asStr (c.get (S "Multiplexer")) }
       let model := match validateProxyForClient k v with
         | none => "ok" | some .name => "name" | some .ppv => "ppv" | some .bwmode => "bwmode" | some .port => "port"
-        | some .hctype => "hctype" | some .hcpath => "hcpath" | some .domains => "domains" | some .mux => "mux"
+        | some .hctype => "hctype" | some .hcpath => "hcpath" | some .domains => "domains" | some .mux => "mux" | some .plugin => "plugin"
       verdictOf model impl (some (C18.clientHoldsOn k v (impl = "ok")))
   | some ("v", tn), some kv =>
     match vtOfName tn with
@@ -231,6 +233,42 @@ def svalStep (kvs : List String) (impl : String) : Verdict :=
     verdictOf model impl (some (C18.serverHoldsOn v (impl = "ok")))
   | none => .bad "sval"
 
+/-! ### loads that overlap in time (`pload`), the loaded configuration handed on (`own`) -/
+
+/-- `<fmt>.<strict>.<level>.<pos>` with `n` proxies and 3 visitors: the load as the model sees it -/
+def parseLoadSpec (n : Nat) (spec : String) : Option StrictLoad.Load :=
+  match spec.splitOn "." with
+  | [_fmt, strict, level, pos] =>
+    let m := n + 3
+    let k := if pos = "first" then 0 else if pos = "mid" then m / 2 else m - 1
+    let isNested := level = "proxy" || level = "plugin" || level = "visitor" || level = "vplugin"
+    if !(isNested || level = "none" || level = "top") then none else
+    some { strict := strict = "1", top := level = "top",
+           nested := if isNested then List.replicate k false ++ [true] ++ List.replicate (m - k - 1) false
+                     else List.replicate m false }
+  | _ => none
+
+def verdictsOf (s : String) : Option (List Bool) :=
+  (s.splitOn ",").mapM fun v => if v = "rej" then some true else if v = "acc" then some false else none
+
+def ploadStep (n : String) (specs : List String) (impl : String) : Verdict :=
+  match n.toNat?, specs with
+  | some n, _ :: _ =>
+    match specs.mapM (parseLoadSpec n) with
+    | none => .bad "pload: spec"
+    | some loads =>
+      -- `strict_verdict_own`: alone or overlapping, each load gives its own verdict
+      let want := ",".intercalate (loads.map fun l => if StrictLoad.rejects l then "rej" else "acc")
+      let model := "seq=" ++ want ++ " conc=" ++ want
+      let prop := match (impl.splitOn " conc=").map (fun p => (p.splitOn "seq=").getLastD "") with
+        | [sq, cc] =>
+          match verdictsOf sq, verdictsOf cc with
+          | some a, some b => C18.strictHoldsOn loads a && C18.strictHoldsOn loads b
+          | _, _ => false
+        | _ => false
+      verdictOf model impl (some prop)
+  | _, _ => .bad "pload"
+
 def stepExt (tok : List String) (impl : String) : Option Verdict :=
   match tok with
   | "fl" :: g :: ssh :: args => some (flStep g ssh args impl)
@@ -239,6 +277,8 @@ def stepExt (tok : List String) (impl : String) : Option Verdict :=
   | "cf" :: root :: via :: _strict :: user :: kvs => some (cfStep root via user kvs impl)
   | "cval" :: root :: kvs => some (cvalStep root kvs impl)
   | "sval" :: kvs => some (svalStep kvs impl)
+  | "pload" :: _seed :: n :: _rounds :: specs => some (ploadStep n specs impl)
+  | ["own", _, _] => some (verdictOf "same idem kept" impl (some (impl = "same idem kept")))
   | ["nr", s] =>
     match unhx s with
     | some s =>
